@@ -22,6 +22,9 @@ struct Query {
     cls: &'static str,   // any | P | E
     policy: String,
     quota4: i64, // -1 = not enforced, else 4 * max_processor_time
+    /// Some(S): the query is made by a thread that has pinned itself to S (through this hardware instance) and asks
+    /// `where_available_for_current_thread()`: candidates are further restricted to S
+    avail: Option<BTreeSet<u32>>,
 }
 
 thread_local! {
@@ -43,7 +46,8 @@ fn run_one(tr: &Tracer, topo: &[P], q: &Query, op: &str, n: usize) {
     }
     let q2 = q.clone();
     let op2 = op.to_string();
-    let res = vrt::catch(move || {
+    let on_fresh_thread = q.avail.is_some();
+    let body = move || {
         let hw = SystemHardware::fake(hb);
         let all = hw.all_processors();
         let base_set = if q2.srcall {
@@ -54,6 +58,11 @@ fn run_one(tr: &Tracer, topo: &[P], q: &Query, op: &str, n: usize) {
         };
         let base_set = base_set.expect("stimulus guarantees a non-empty source");
         let mut b = base_set.to_builder();
+        if let Some(av) = &q2.avail {
+            let av = av.clone();
+            all.filter(|p| av.contains(&p.id())).expect("stimulus guarantees a non-empty affinity").pin_current_thread_to();
+            b = b.where_available_for_current_thread();
+        }
         let excepted: Vec<Processor> = all.iter().filter(|p| q2.except.contains(&p.id())).cloned().collect();
         let pass = q2.pass.clone();
         // The criteria are independent of the order in which the builder methods are called (the last class selector and
@@ -125,9 +134,24 @@ fn run_one(tr: &Tracer, topo: &[P], q: &Query, op: &str, n: usize) {
         }
         let r = if op2 == "take" { b.take(NonZero::new(n).unwrap()) } else { b.take_all() };
         r.map(|set| set.processors().iter().map(|p| p.id()).collect::<Vec<u32>>())
-    });
+    };
+    // a pin sticks to its thread: queries that pin first run on a thread of their own
+    let res = if on_fresh_thread {
+        std::thread::spawn(move || vrt::catch(body)).join().unwrap_or_else(|_| Err("thread died".into()))
+    } else {
+        vrt::catch(body)
+    };
+    // what the judge sees: the affinity is one more restriction of the source set
+    let (srcall_j, source_j) = match &q.avail {
+        None => (q.srcall, q.source.clone()),
+        Some(av) => {
+            let base: BTreeSet<u32> = if q.srcall { topo.iter().map(|p| p.id).collect() } else { q.source.clone() };
+            (false, base.intersection(av).copied().collect())
+        }
+    };
     let topo_j: Vec<Value> = topo.iter().map(|p| json!({"id":p.id,"region":p.region,"cls":p.cls.to_string()})).collect();
-    let qj = json!({"srcall":q.srcall,"source":q.source,"except":q.except,"pass":q.pass,"cls":q.cls,"policy":q.policy,"quota4":q.quota4});
+    let qj = json!({"srcall":srcall_j,"source":source_j,"except":q.except,"pass":q.pass,"cls":q.cls,"policy":q.policy,"quota4":q.quota4,
+                    "avail":q.avail.is_some()});
     let rec = match res {
         Ok(Some(ids)) => json!({"topo":topo_j,"q":qj,"op":op,"n":n,"some":true,"ids":ids}),
         Ok(None) => json!({"topo":topo_j,"q":qj,"op":op,"n":n,"some":false,"ids":[]}),
@@ -156,7 +180,7 @@ pub fn cases(cases: &str, out: &str, reps: u64) {
             let variant = (ci as u64 + rep) % 5;
             let mut t = topo.clone();
             let ids: BTreeSet<u32> = topo.iter().map(|p| p.id).collect();
-            let mut q = Query { srcall: true, source: BTreeSet::new(), except: BTreeSet::new(), pass: ids.clone(), cls: "any", policy: policy.clone(), quota4 };
+            let mut q = Query { srcall: true, source: BTreeSet::new(), except: BTreeSet::new(), pass: ids.clone(), cls: "any", policy: policy.clone(), quota4, avail: None };
             // decoys sit in the same regions as real candidates (and in a fresh one), so a leak changes the answer
             let decoys = [P { id: 91, region: 1, cls: 'P' }, P { id: 92, region: 2, cls: 'P' }, P { id: 93, region: 7, cls: 'P' }];
             match variant {
@@ -224,12 +248,27 @@ pub fn random(out: &str, count: u64) {
             cls: *rng.pick(&["any", "any", "P", "E"]),
             policy: rng.pick(&policies).to_string(),
             quota4: if rng.chance(1, 2) { -1 } else { rng.below(4 * (np as u64 + 2)) as i64 },
+            avail: None,
         };
         if !q.srcall {
             q.source = sub(&mut rng, 3, 4);
             if q.source.is_empty() {
                 q.source.insert(all[0]);
             }
+        }
+        if rng.chance(1, 4) {
+            // the querying thread has pinned itself to a few processors (often several of one region) that overlap the source
+            let base: Vec<u32> = if q.srcall { all.clone() } else { q.source.iter().copied().collect() };
+            let anchor = *rng.pick(&base);
+            let region = topo.iter().find(|p| p.id == anchor).map(|p| p.region).unwrap_or(0);
+            let mut av: BTreeSet<u32> = BTreeSet::new();
+            av.insert(anchor);
+            for p in &topo {
+                if (p.region == region && rng.chance(1, 2)) || rng.chance(1, 10) {
+                    av.insert(p.id);
+                }
+            }
+            q.avail = Some(av);
         }
         if rng.chance(1, 3) {
             run_one(&tr, &topo, &q, "take_all", 1);
